@@ -201,13 +201,205 @@ let run_cx (body : string) : string =
        | _ -> "P")
   | _ -> "BAD-CASE"
 
+
+(* ---------- vertical composition (Model/TngStack.v) ---------- *)
+let cc_raw (c : cobcomp) : string =
+  Printf.sprintf "[%s]>[%s] g=%s d=%s,%s" (tng_raw c.csrc) (tng_raw c.ctgt) (string_of_nat c.cgenus)
+    (string_of_nat c.cdx) (string_of_nat c.cdy)
+let cob_raw (s : cob) : string = "{" ^ String.concat " | " (L.map cc_raw s) ^ "}"
+
+let canon_path (c : path) : string =
+  let es = L.map int_of_nat c.pedges in
+  let rv = L.rev es in
+  let rot l k = let rec go a b k = if k = 0 then b @ L.rev a else (match b with x :: r -> go (x :: a) r (k - 1) | [] -> L.rev a) in go [] l k in
+  let best = ref es in
+  if c.pclosed then
+    L.iter (fun base -> L.iteri (fun k _ -> let x = rot base k in if compare x !best < 0 then best := x) base) [es; rv]
+  else if compare rv !best < 0 then best := rv;
+  (if c.pclosed then "c" else "a") ^ String.concat "." (L.map string_of_int !best)
+
+let canon_cob (s : cob) : string =
+  "{" ^ String.concat " | " (L.map (fun c ->
+    Printf.sprintf "[%s]>[%s] g=%s d=%s,%s" (String.concat " " (L.map canon_path c.csrc))
+      (String.concat " " (L.map canon_path c.ctgt)) (string_of_nat c.cgenus) (string_of_nat c.cdx) (string_of_nat c.cdy)) s) ^ "}"
+
+let lc_str (l : lccob) : string =
+  let ts = L.map (fun (c, r) -> Printf.sprintf "%s*%s^%s" (string_of_z r) (canon_cob c) (zopt (cob_deg c))) l in
+  let ts = L.sort compare ts in
+  Printf.sprintf "(%d)%s" (L.length ts) (String.concat " + " ts)
+
+exception Panic
+
+(* `comps > comps` *)
+let sides (s : string) : (path list * path list) =
+  match String.index_opt s '>' with
+  | None -> raise Bad
+  | Some i ->
+      let a = String.sub s 0 i and b = String.sub s (i + 1) (String.length s - i - 1) in
+      (match parse_comps a, parse_comps b with
+       | Some a, Some b -> (a, b)
+       | _ -> raise Panic)
+
+let need_p = function Some v -> v | None -> raise Panic
+
+let parse_cc_term (t : string) : cobcomp =
+  let t = String.trim t in
+  let (head, body) = match String.index_opt t ' ' with
+    | Some i -> (String.sub t 0 i, String.sub t (i + 1) (String.length t - i - 1)) | None -> (t, "") in
+  match head with
+  | "n" ->
+      (match String.index_opt body '@' with
+       | None -> raise Bad
+       | Some i ->
+           let st = String.sub body 0 i and gxy = String.sub body (i + 1) (String.length body - i - 1) in
+           (match split_ws gxy with
+            | [g; x; y] ->
+                let (g, x, y) = (try (nat_of_string g, nat_of_string x, nat_of_string y) with _ -> raise Bad) in
+                let (a, b) = sides st in
+                let src = need_p (tng_new a) in
+                let tgt = need_p (tng_new b) in
+                cc_new src tgt g x y
+            | _ -> raise Bad))
+  | "cup" -> need_p (cc_cup (need_p (parse_comp body)))
+  | "cap" -> cc_cap (need_p (parse_comp body))
+  | "id" -> cc_id (need_p (parse_comp body))
+  | "mg" -> (match sides body with ([a; b], [c]) -> need_p (cc_merge a b c) | _ -> raise Bad)
+  | "sp" -> (match sides body with ([a], [b; c]) -> need_p (cc_split a b c) | _ -> raise Bad)
+  | "sd" -> (match sides body with ([a; b], [c; d]) -> need_p (cc_sdl a b c d) | _ -> raise Bad)
+  | _ -> raise Bad
+
+let parse_any_term (t : string) : cob =
+  match split_ws t with
+  | ("s" | "i" | "c") :: _ -> need_p (parse_term t)
+  | _ -> need_p (cob_new [parse_cc_term t])
+
+let parse_layer (s : string) : cob =
+  let s = String.trim s in
+  let (mode, body) = match String.index_opt s ' ' with
+    | Some i -> (String.sub s 0 i, String.sub s (i + 1) (String.length s - i - 1)) | None -> (s, "") in
+  let terms = L.filter (fun t -> String.trim t <> "") (String.split_on_char ';' body) in
+  (* the harness parses every term before it looks at the mode *)
+  let cobs = L.map parse_any_term terms in
+  match mode with
+  | "K" -> L.fold_left (fun acc c -> need_p (cob_connect acc c)) [] cobs
+  | "N" -> need_p (cob_new (L.concat cobs))
+  | _ -> raise Bad
+
+let split_ops (body : string) : string list =
+  (* split on "//" *)
+  let n = String.length body in
+  let rec go i start acc =
+    if i + 1 >= n then L.rev (String.sub body start (n - start) :: acc)
+    else if body.[i] = '/' && body.[i + 1] = '/' then go (i + 2) (i + 2) (String.sub body start (i - start) :: acc)
+    else go (i + 1) start acc in
+  if n = 0 then [] else go 0 0 []
+
+let run_sk (body : string) : string =
+  let acc = ref [] and cur = ref [] and hist = ref [] in
+  let acclc : lccob option ref = ref None and curlc : lccob ref = ref [] in
+  let out = ref [] in
+  let push s = out := s :: !out in
+  let b01 = string_of_bool01 in
+  let two_ints rest = (match split_ws rest with
+    | [h; t] -> (try (z_of_string (string_of_int (int_of_string h)), z_of_string (string_of_int (int_of_string t))) with _ -> raise Bad)
+    | _ -> raise Bad) in
+  let run_op (op : string) : unit =
+    let op = String.trim op in
+    let (name, rest) = match String.index_opt op ' ' with
+      | Some i -> (String.sub op 0 i, String.sub op (i + 1) (String.length op - i - 1)) | None -> (op, "") in
+    match name with
+    | "L" -> cur := parse_layer rest; push ("L=" ^ cob_str !cur)
+    | "ST" ->
+        let st = cob_is_stackable !acc !cur in
+        let r = need_p (cob_stack !acc !cur) in
+        acc := r; hist := !hist @ [!cur];
+        push (Printf.sprintf "st=%s acc=%s" (b01 st) (cob_str !acc))
+    | "ID" ->
+        let s = need_p (cob_src !cur) and t = need_p (cob_tgt !cur) in
+        let ids = need_p (cob_id s) and idt = need_p (cob_id t) in
+        let f e = (match e with Some c -> (cob_raw c, b01 (cob_eqb c !cur)) | None -> ("P", "P")) in
+        let (s1, q1) = f (cob_stack ids !cur) in
+        let (s2, q2) = f (cob_stack !cur idt) in
+        push (Printf.sprintf "idl=%s eql=%s idr=%s eqr=%s" s1 q1 s2 q2)
+    | "INV" ->
+        (match cob_inv !cur with
+         | None -> push "inv=-"
+         | Some None -> raise Panic
+         | Some (Some inv) ->
+             let ids = (match cob_src !cur with Some s -> cob_id s | None -> None) in
+             let idt = (match cob_tgt !cur with Some s -> cob_id s | None -> None) in
+             let f e i = (match e, i with
+               | Some c, Some i -> (cob_raw c, b01 (cob_eqb c i))
+               | Some c, None -> (cob_raw c, "P")
+               | _ -> ("P", "P")) in
+             let (s1, q1) = f (cob_stack !cur inv) ids in
+             let (s2, q2) = f (cob_stack inv !cur) idt in
+             push (Printf.sprintf "inv=%s ci=%s eq=%s ic=%s eq=%s" (cob_raw inv) s1 q1 s2 q2))
+    | "CO" ->
+        let w = split_ws rest in
+        let n = L.length w in
+        if n < 3 then raise Bad;
+        let b = (match L.hd w with "S" -> BSrc | "T" -> BTgt | _ -> raise Bad) in
+        let d = (match L.nth w (n - 1) with "N" -> DNone | "X" -> DX | "Y" -> DY | _ -> raise Bad) in
+        let mid = L.filteri (fun i _ -> i >= 1 && i < n - 1) w in
+        let c = need_p (parse_comp (String.concat " " mid)) in
+        acc := need_p (cob_cap_off !acc b c d);
+        push ("co=" ^ cob_str !acc)
+    | "SRC" ->
+        let f = function Some t -> tng_raw t | None -> "P" in
+        push (Printf.sprintf "src=[%s] tgt=[%s]" (f (cob_src !acc)) (f (cob_tgt !acc)))
+    | "AS" ->
+        (match L.rev !hist with
+         | [] -> push "as=-"
+         | last :: before ->
+             let r = L.fold_left (fun r l -> match r with Some x -> cob_stack l x | None -> None) (Some last) before in
+             (match r with
+              | Some x -> push (Printf.sprintf "as=%s eq=%s" (cob_raw x) (b01 (cob_eqb x !acc)))
+              | None -> push "as=P"))
+    | "PE" ->
+        let (h, t) = two_ints rest in
+        push ("pe=" ^ (match cob_part_eval h t !acc with Some l -> lc_str l | None -> "P"))
+    | "LC" ->
+        let parts = L.filter (fun t -> String.trim t <> "") (String.split_on_char '|' rest) in
+        let terms = L.map (fun t ->
+          match String.index_opt t ':' with
+          | None -> raise Bad
+          | Some i ->
+              let r = (try int_of_string (String.trim (String.sub t 0 i)) with _ -> raise Bad) in
+              let c = parse_layer (String.sub t (i + 1) (String.length t - i - 1)) in
+              (c, z_of_string (string_of_int r))) parts in
+        curlc := lc_from_list terms;
+        push (Printf.sprintf "lc=%s inv=%s" (lc_str !curlc) (b01 (lc_is_invertible !curlc)))
+    | "MUL" ->
+        let r = (match !acclc with None -> !curlc | Some a -> need_p (lc_mul !curlc a)) in
+        push ("mul=" ^ lc_str r); acclc := Some r
+    | "LPE" ->
+        let (h, t) = two_ints rest in
+        (match !acclc with
+         | None -> raise Bad
+         | Some a -> let r = need_p (lc_part_eval h t a) in push ("lpe=" ^ lc_str r); acclc := Some r)
+    | "LINV" ->
+        (match !curlc with
+         | [] -> push "linv=-"
+         | [(c, r)] ->
+             (match lc_inv_first c r with
+              | None -> push "linv=-"
+              | Some None -> raise Panic
+              | Some (Some i) -> push ("linv=" ^ lc_str i))
+         | _ -> push "linv=?")
+    | _ -> raise Bad in
+  (try
+     L.iter (fun op -> if String.trim op <> "" then run_op op) (split_ops body)
+   with Panic -> push "P" | Bad -> push "BAD-OP");
+  String.concat " | " (L.rev !out)
+
 let handle (line : string) : string =
   let line = String.trim line in
   let (kind, body) =
     match String.index_opt line ' ' with
     | Some i -> (String.sub line 0 i, String.sub line (i + 1) (String.length line - i - 1))
     | None -> (line, "") in
-  try (match kind with "pc" -> run_pc body | "cb" -> run_cb body | "cx" -> run_cx body | _ -> run_script body)
+  try (match kind with "pc" -> run_pc body | "cb" -> run_cb body | "cx" -> run_cx body | "sk" -> run_sk body | _ -> run_script body)
   with Bad -> "BAD-CASE"
 
 let () = run_lines handle
